@@ -68,3 +68,12 @@ package config
 //@   props C13 C14
 //@   modifies fresh, ghost lastclean[0]
 //@   ensures result == cleanpaths(paths, delim) && lastclean(0) == result
+
+// C17 / C10: which credential.<url>.* (or http.<url>.*) entry applies to a URL.
+// While the configuration is scanned the best match only ever gets better in
+// the order Git defines - host score, then path score, then user match - so an
+// entry with a weaker (wildcard) host can never displace an exact-host entry
+// whatever its path, and the outcome does not depend on the iteration order.
+//@ func (*URLConfig).getAll
+//@   props C17 C10
+//@   loop 1 iter bestMatch.hostScore > iter(bestMatch.hostScore) || (bestMatch.hostScore == iter(bestMatch.hostScore) && (bestMatch.pathScore > iter(bestMatch.pathScore) || (bestMatch.pathScore == iter(bestMatch.pathScore) && bestMatch.userMatch >= iter(bestMatch.userMatch))))
